@@ -255,6 +255,51 @@ def probe_multiget_independence(seed, limit):
     return None
 
 
+def probe_status_hrefs(seed, limit):
+    """C16: the href of every response element of every multistatus - also of PROPPATCH answers, of
+    the 404 answer for a missing target and of DAV:error bodies - is the request target as a path
+    below the route prefix (percent-quoted), for member names that need quoting, under both
+    decodings a WSGI server can deliver (PEP 3333 latin-1 PATH_INFO)."""
+    from xml.etree import ElementTree as ET
+
+    for prefix in ("", "/dav"):
+        s = Server(prefix)
+        try:
+            name = "caf\u00e9 \u2603.ics"
+            member = CAL + urllib.parse.quote(name)
+            r = s.request("PUT", member, {"Content-Type": "text/calendar"}, ics("u-n"))
+            if r["status"] not in (201, 204):
+                return {"input": {"requests": [["PUT", prefix + member, {}, ""]]}, "expected": "201", "observed": f"{r['status']} {r['body'][:100]!r}"}
+            pf = s.request("PROPFIND", CAL, {"Depth": "1"})
+            hrefs = [x.find("{DAV:}href").text for x in ET.fromstring(pf["body"]).findall("{DAV:}response")] if pf["status"] == 207 else []
+            if prefix + member not in hrefs:
+                return {"input": {"requests": [["PUT", prefix + member, {}, ""], ["PROPFIND", prefix + CAL, {}, ""]]},
+                        "expected": f"the listing contains {prefix + member}", "observed": f"{hrefs}"}
+            for h in hrefs:
+                g = s.request("PROPFIND", h[len(prefix):], {"Depth": "0"})
+                if g["status"] != 207:
+                    return {"input": {"requests": [["PROPFIND", h, {}, ""]]}, "expected": "every listed href resolves", "observed": f"{h} -> {g['status']}"}
+            cases = [
+                ("PROPPATCH", CAL, {"Content-Type": "text/xml"},
+                 b"<D:propertyupdate xmlns:D='DAV:'><D:set><D:prop><D:displayname>X</D:displayname></D:prop></D:set></D:propertyupdate>"),
+                ("PROPFIND", "/user/calendars/missing/", {"Depth": "0"}, b""),
+                ("PROPPATCH", "/user/calendars/missing/", {"Content-Type": "text/xml"},
+                 b"<D:propertyupdate xmlns:D='DAV:'><D:set><D:prop><D:displayname>X</D:displayname></D:prop></D:set></D:propertyupdate>"),
+            ]
+            for method, path, hdr, body in cases[:limit]:
+                r = s.request(method, path, hdr, body)
+                if r["status"] != 207:
+                    continue
+                for resp in ET.fromstring(r["body"]).findall("{DAV:}response"):
+                    h = resp.find("{DAV:}href").text
+                    if h.rstrip("/") != (prefix + path).rstrip("/"):
+                        return {"input": {"requests": [[method, prefix + path, hdr, body.decode()]]},
+                                "expected": f"response href {prefix + path} (the request target as a path; a trailing slash is immaterial)", "observed": h}
+        finally:
+            s.close()
+    return None
+
+
 def probe_refused_mkcol(seed, limit):
     """C01: a MKCOL / MKCALENDAR that is answered with an error creates nothing."""
     cases = [
@@ -548,6 +593,7 @@ GROUPS = {
     "listing": probe_listing,
     "members": probe_members,
     "independence": probe_multiget_independence,
+    "status_hrefs": probe_status_hrefs,
     "model": probe_model,
 }
 
@@ -563,7 +609,7 @@ def groups_for(fn):
         return ["listing", "model"]
     if fn and "PostMethod" in fn:
         return ["post_location", "model"]
-    return ["model", "traversal", "refused_mkcol", "post_location", "listing", "members", "independence"]
+    return ["model", "traversal", "refused_mkcol", "post_location", "listing", "members", "independence", "status_hrefs"]
 
 
 class Http:
@@ -572,7 +618,7 @@ class Http:
         quick = req.get("tier", "quick") == "quick"
         tried = {}
         for g in groups_for(req.get("function")):
-            limit = {"traversal": 60 if quick else 600, "refused_mkcol": 11, "listing": 6, "members": 24, "independence": 6, "model": 40 if quick else 400, "post_location": 4}[g]
+            limit = {"traversal": 60 if quick else 600, "refused_mkcol": 11, "listing": 6, "members": 24, "independence": 6, "status_hrefs": 3, "model": 40 if quick else 400, "post_location": 4}[g]
             bad = GROUPS[g](seed, limit)
             tried[g] = limit
             if bad:
